@@ -18,7 +18,7 @@ def spec_cmp(policy, a, b):
     for p in policy:
         if p[0] == "exact" and a == b:
             return True
-        if p[0] == "percent" and Fraction(len(a & b), len(a | b)) >= Fraction(p[1]).limit_denominator(10000):
+        if p[0] == "percent" and len(a | b) and Fraction(len(a & b), len(a | b)) >= Fraction(p[1]).limit_denominator(10000):
             return True
         if p[0] == "number" and len(a & b) >= p[1]:
             return True
